@@ -9,6 +9,7 @@ successor; in every state the probes must observe exactly the active entries; ob
 self-loops whose results depend only on (arguments, abstract state).
 """
 import copy
+import itertools
 import inspect
 import types
 from typing import Protocol, runtime_checkable
@@ -590,6 +591,51 @@ def explore(ctx, case):
     ctx.evaluations += ex.transitions
 
 
+def custom_scope_case(ctx, seq):
+    """a plugin scope the embedder invents: every history of add / remove / reset up to length 4 against a set model, observed
+    in the registry and in the plugin table a run receives"""
+    scope = 'verif_custom_scope'
+    snap = snapshot()
+    model = []
+    try:
+        for i, (o, pn) in enumerate(seq):
+            p = PLUGINS[pn] if pn else None
+            try:
+                if o == 'add':
+                    F.add_plugin(scope, p)
+                    if pn not in model:
+                        model.append(pn)
+                elif o == 'remove':
+                    F.remove_plugin(scope, p)
+                    if pn in model:
+                        model.remove(pn)
+                else:
+                    F.reset_plugins(scope)
+                    model = []
+            except BaseException as e:
+                if o == 'add':
+                    ctx.violation({'clause': 'registry is not the set model successor', 'where': 'custom scope', 'op': o}, f'{seq[:i + 1]}: {e!r}')
+                    return
+                continue      # removing from / resetting a scope that does not exist yet may be refused
+            ctx.ran()
+            ctx.trans()
+            reg = [PLUGIN_NAME.get(id(x), '?') for x in F._plugins.get(scope, [])] if 'PLUGIN_NAME' in globals() else None
+            try:
+                tape, _, _ = F.run_script(op('TRUE'))
+                seen = list(tape.plugins.get(scope, []))
+            except BaseException as e:
+                seen = repr(e)
+            names = sorted(n for n in ('p1', 'p2', 'p3') if any(x is PLUGINS[n] or x == PLUGINS[n] for x in (seen if isinstance(seen, list) else [])))
+            ctx.state(('custom-scope', tuple(seq[:i + 1])))
+            ctx.outcome('custom:%d' % len(names))
+            if names != sorted(model):
+                ctx.violation({'clause': 'registry is not the set model successor', 'where': 'custom scope', 'op': o},
+                              f'history {seq[:i + 1]}: a run sees {names}, model {sorted(model)}')
+                return
+    finally:
+        restore(snap)
+
+
 def blocks(tier, seed):
     q = tier == 'quick'
     allops = ops_plugins() + ops_contracts() + ops_aliases() + OBSERVERS
@@ -600,7 +646,11 @@ def blocks(tier, seed):
         ('aliases subsystem', ops_aliases() + OBSERVERS, None, None),
     ]
     prod = [('product after %r' % (o,), allops, d - 1, o) for o in allops]
+    cops = [('add', 'p1'), ('add', 'p2'), ('remove', 'p1'), ('remove', 'p2'), ('reset', None)]
+    cseqs = [seq for n in range(1, 5) for seq in itertools.product(cops, repeat=n)]
     return [
+        Block('custom_plugin_scope', cseqs, custom_scope_case, 'every history of <= 4 add / remove / reset operations on a scope the '
+              'embedder invents (%d histories)' % len(cseqs), nshards=32),
         Block('subsystem_fixpoints', cases, explore, 'each registry subsystem explored to a fixpoint (all histories of any length)',
               nshards=len(cases), backstop=7200),
         Block('full_product_bounded', prod, explore,
